@@ -367,6 +367,14 @@ def indexed_cases(env, res, pl):
                 ok = bs == BOOL and v.is_symbol() and isterm(vs)
                 app(qn, lambda b, x, Q=Q: Q([x], b), BOOL if ok else ILL, [(bs, body), (vs, v)], "1var")
         app("ForAll", lambda b: m.ForAll([], b), bs if bs == BOOL else ILL, [(bs, body)], "0vars")
+    # binder lists of two entries: every entry must be a variable (a symbol that is a term), whatever the other is
+    bodies = [(bs, body) for bs, body in pl if bs == BOOL][:2]
+    for bs, body in bodies:
+        for vs, v in pl:
+            for ws, w in pl:
+                for Q, qn in ((m.ForAll, "ForAll"), (m.Exists, "Exists")):
+                    ok = v.is_symbol() and isterm(vs) and w.is_symbol() and isterm(ws)
+                    app(qn, lambda b, x, y, Q=Q: Q([x, y], b), BOOL if ok else ILL, [(bs, body), (vs, v), (ws, w)], "2vars")
     # function application
     fsyms = [(FII, m.Symbol("pf", mk_type(env, FII))),
              (("Fun", BOOL, (INT, ("BV", 2))), m.Symbol("pq", mk_type(env, ("Fun", BOOL, (INT, ("BV", 2))))))]
